@@ -257,6 +257,40 @@ pub fn run(rep: &mut Report) {
             j_fields(lattice::scan_point(k, 1, d0, d1) as i64, lattice::scan_point(k, 2, 0, NS_DAY - 1), SCALES[(i % 9) as usize], out)
         });
     }
+    {
+        // structured times of day: every whole hour, every whole minute of two hours, every whole second of two minutes, whole
+        // milliseconds / microseconds - values that are special for the user, not for the code (a borrow or carry chain over the
+        // time-of-day fields goes wrong when the lower fields are exactly zero)
+        let mut st: Vec<i128> = vec![];
+        for h in 0..24i128 {
+            st.push(h * 3600 * NS_S);
+        }
+        for mi in 0..60i128 {
+            st.push((6 * 3600 + mi * 60) * NS_S);
+            st.push((23 * 3600 + mi * 60) * NS_S);
+            st.push((6 * 3600 + 30 * 60 + mi) * NS_S);
+            st.push((23 * 3600 + 59 * 60 + mi) * NS_S);
+        }
+        for k in [1i128, 2, 10, 100, 999] {
+            st.push(k * 1_000_000);
+            st.push(k * 1_000);
+            st.push(12 * 3600 * NS_S + k * 1_000_000);
+            st.push(86_399 * NS_S + k * 1_000_000);
+        }
+        st.sort();
+        st.dedup();
+        let days_s: Vec<i64> = {
+            let (d0, d1) = (days1900(1, 1, 1), days1900(9999, 12, 31));
+            let mut v: Vec<i64> = (d0..=d1).step_by(if q { 4999 } else { 499 }).collect();
+            v.extend([-1, 0, 1, -15_020, -36_525, -36_524, 36_524, 36_525, days1900(1858, 11, 16), days1900(1858, 11, 17), days1900(1899, 12, 31), days1900(1, 1, 1), days1900(9999, 12, 31), days1900(2016, 12, 31), days1900(1980, 1, 5), days1900(2000, 1, 1)]);
+            v.sort();
+            v.dedup();
+            v
+        };
+        let (ns_, nd_) = (st.len() as u64, days_s.len() as u64);
+        rep.bound("structured_times_of_day", format!("{ns_} times of day x {nd_} days x 9 scales"));
+        sweep(rep, "c09.fields[structured-tod]", ns_ * nd_ * 9, |i, out| j_fields(days_s[((i / 9) / ns_) as usize], st[((i / 9) % ns_) as usize], SCALES[(i % 9) as usize], out));
+    }
     for ts in SCALES {
         let el: Vec<i128> = lattice::el(ts, if q { 4 } else { 32 }, Some((-2, 40)));
         sweep(rep, &format!("c09.count[{}]", scale_name(ts)), el.len() as u64, |i, out| j_count(el[i as usize], ts, None, out));
